@@ -176,6 +176,10 @@ theorem survives_applyOp {k : String} {st st' : State} {o : BatchOp} (hs : Survi
     split at hok
     · cases hok; exact ⟨tr, e, hl, he, hb⟩
     · cases hok
+  | existingTypeConst m rn rt dr =>
+    simp only [State.applyOp] at hok
+    cases hok
+    unfold State.existingTypeConst; split <;> exact ⟨tr, e, hl, he, hb⟩
 
 theorem verbatim_applyOp {k : String} {st st' : State} {o : BatchOp} (hs : Verbatim k st)
     (ht : touches k o = false) (hr : retypes k o = false) (hok : st.applyOp o = .ok st') : Verbatim k st' := by
@@ -227,6 +231,10 @@ theorem verbatim_applyOp {k : String} {st st' : State} {o : BatchOp} (hs : Verba
     split at hok
     · cases hok; exact ⟨tr, hl, he⟩
     · cases hok
+  | existingTypeConst m rn rt dr =>
+    simp only [State.applyOp] at hok
+    cases hok
+    unfold State.existingTypeConst; split <;> exact ⟨tr, hl, he⟩
 
 theorem survives_applyOps {k : String} (ops : List BatchOp) : ∀ (st st' : State), Survives k st →
     (∀ o ∈ ops, touches k o = false) → st.applyOps ops = .ok st' → Survives k st' := by
@@ -302,6 +310,10 @@ theorem index_kept_applyOp {n : String} {ix : Index} {st st' : State} {o : Batch
       have hne : n ≠ m := by simp [dropsIndex] at hd; exact fun e => hd e.symm
       simp only; rw [alookup_adel_ne _ hne]; exact h
     · cases hok
+  | existingTypeConst m rn rt dr =>
+    simp only [State.applyOp] at hok
+    cases hok
+    unfold State.existingTypeConst; split <;> exact h
 
 theorem index_kept_applyOps {n : String} {ix : Index} (ops : List BatchOp) : ∀ (st st' : State),
     alookup n st.indexes = some ix → (∀ o ∈ ops, dropsIndex n o = false) → st.applyOps ops = .ok st' →
@@ -334,6 +346,7 @@ theorem mem_of_alookup {α : Type} {k : String} {v : α} {l : List (String × α
 def mentionsConst (n : String) : BatchOp → Bool
   | .dropConstraint m => m == n
   | .addConstraint c => c.name == some n
+  | .existingTypeConst m rn rt dr => (rn || rt || dr) && m == n   -- named through `existing_type=` by a rename/retype/drop
   | _ => false
 
 theorem alookup_map_snd {α : Type} (f : α → α) (k : String) (l : List (String × α)) :
@@ -426,6 +439,16 @@ theorem named_kept_applyOp {n : String} {c : Const} {st st' : State} {o : BatchO
     split at hok
     · cases hok; exact h
     · cases hok
+  | existingTypeConst m rn rt dr =>
+    simp only [State.applyOp] at hok
+    cases hok
+    unfold State.existingTypeConst
+    split
+    · rename_i hp
+      have hne : n ≠ m := by
+        intro e; subst e; simp [mentionsConst, hp] at hm
+      simp only; rw [alookup_adel_ne _ hne]; exact h
+    · exact h
 
 theorem named_kept_applyOps {n : String} {c : Const} (ops : List BatchOp) : ∀ (st st' : State),
     alookup n st.named = some c → (∀ o ∈ ops, ∀ k ∈ c.cols, touches k o = false) →
@@ -495,6 +518,7 @@ of the primary key constraint, or drops the constraint with that name -/
 def mentionsPk (pkName : Option String) : BatchOp → Bool
   | .addConstraint c => c.kind == .pk || (pkName.isSome && c.name == pkName)
   | .dropConstraint m => pkName == some m
+  | .existingTypeConst m rn rt dr => (rn || rt || dr) && pkName == some m
   | _ => false
 
 /-- exactly one PRIMARY KEY constraint object, `c`; PRIMARY KEY entries of `named_constraints` sit under their own name -/
@@ -669,6 +693,31 @@ theorem pkInv_applyOp {c : Const} {st st' : State} {o : BatchOp} (hinv : PkInv s
     split at hok
     · cases hok; exact ⟨hinv.only, hinv.keys⟩
     · cases hok
+  | existingTypeConst m rn rt dr =>
+    simp only [State.applyOp] at hok
+    cases hok
+    unfold State.existingTypeConst
+    split
+    · rename_i hp
+      simp only [mentionsPk, hp, Bool.true_and] at hm
+      have hentries : ∀ q ∈ st.named, q.1 = m → isPk q.2 = false := by
+        intro q hq hqk
+        cases hq2 : isPk q.2 with
+        | false => rfl
+        | true =>
+          obtain ⟨_, hcn⟩ := pk_entry_key hinv hq hq2
+          rw [hqk] at hcn
+          simp [hcn] at hm
+      constructor
+      · simp only [pkList, List.filter_append]
+        rw [adel_filter_snd hentries]
+        have := hinv.only
+        simp only [pkList, List.filter_append] at this
+        exact this
+      · intro p hp' hpk
+        simp only [adel, List.mem_filter] at hp'
+        exact hinv.keys p hp'.1 hpk
+    · exact hinv
 
 /-- `_grab_table_elements` files exactly one PRIMARY KEY constraint object (the table's own) -/
 theorem grab_pkInv (refl : Bool) (c : Const) : ∀ (cs : List Const) (acc : List (String × Const) × List Const),
